@@ -305,7 +305,208 @@ func genDirectList(r *core.Rand) *directList {
 
 func genCase(r *core.Rand) *rcase { return genCaseView(r, machineView()) }
 
+// ---- upstream FAMILIES: several upstream proxies of one configuration that share part of their address ----
+
+// famMember is one upstream proxy of a family: the PAC keyword that selects its kind and its host:port.
+type famMember struct{ kw, hostport string }
+
+func (m famMember) scheme() string { return pacModes[m.kw] }
+
+// The families: one host name with several ports (and both kinds of HTTP proxy, and a SOCKS5 server), one port on several
+// hosts, the same host:port under both schemes, and several spellings of one address (letter case, trailing dot, the IP
+// literals behind the name). Two members that differ in scheme, host spelling or port are DIFFERENT hops: connect-to gives
+// each its own listener (members with one host:port necessarily share theirs), so a request delivered to a sibling is
+// seen in the dial log and by the listener that accepted it.
+var (
+	famSameHost = []famMember{{"PROXY", "gw.test:3128"}, {"PROXY", "gw.test:3129"}, {"HTTP", "gw.test:8080"}, {"HTTPS", "gw.test:3443"}, {"HTTPS", "gw.test:3444"},
+		{"SOCKS5", "gw.test:1080"}}
+	famSamePort = []famMember{{"PROXY", "gw.test:3128"}, {"PROXY", "alt.test:3128"}, {"HTTP", "third.test:3128"}, {"HTTPS", "gw.test:3443"}, {"HTTPS", "alt.test:3443"},
+		{"PROXY", "[fd00::7]:3128"}}
+	famSchemes   = []famMember{{"PROXY", "gw.test:3443"}, {"HTTPS", "gw.test:3443"}, {"PROXY", "gw.test:3128"}, {"HTTPS", "gw.test:3128"}, {"HTTPS", "gw.test:3444"}}
+	famSpellings = []famMember{{"PROXY", "gw.test:3128"}, {"PROXY", "GW.test:3128"}, {"HTTP", "gw.test.:3128"}, {"PROXY", "10.9.8.7:3128"}, {"PROXY", "10.9.8.7:3129"},
+		{"PROXY", "gw.test:3129"}, {"HTTPS", "gw.test:3443"}, {"HTTPS", "GW.TEST:3443"}, {"HTTPS", "10.9.8.7:3443"}, {"PROXY", "[fd00::7]:3128"}, {"PROXY", "[FD00::7]:3128"}}
+	famTargets = []string{"origin.test", "other.test", "x.dir.test", "not.direct.test", "fourth.test"}
+	// every name an HTTPS upstream has in some case (the certificate of the TLS listeners names them all)
+	tlsUpstreamNames = []string{"proxyb.test", "gw.test", "alt.test", "third.test", "10.9.8.7", "fd00::7"}
+)
+
+func splitHostPortLoose(hp string) (string, string) {
+	i := strings.LastIndex(hp, ":")
+	return strings.Trim(hp[:i], "[]"), hp[i+1:]
+}
+
+// genFamilyCase: a PAC script or custom proxy function that selects 2-4 members of one family, each for target hosts (or
+// URLs) of its own, and a request sequence - plain, CONNECT, inside an intercepted tunnel - that visits every member in a
+// random order and then again in other orders, all served by ONE instance.
+func genFamilyCase(r *core.Rand, v *hostsView) *rcase {
+	rc := &rcase{Kind: "routing", LocalMode: core.Pick(r, []string{"deny", "allow", "direct"})}
+	var pool []famMember
+	switch r.Intn(10) {
+	case 0, 1, 2, 3:
+		pool, rc.Family = famSameHost, "same-host"
+	case 4, 5:
+		pool, rc.Family = famSamePort, "same-port"
+	case 6:
+		pool, rc.Family = famSchemes, "same-address-two-schemes"
+	case 7, 8:
+		pool, rc.Family = famSpellings, "spellings"
+	default:
+		rc.Family = "mixed"
+		seen := map[famMember]bool{}
+		for _, l := range [][]famMember{famSameHost, famSamePort, famSchemes, famSpellings} {
+			for _, m := range l {
+				if !seen[m] {
+					seen[m] = true
+					pool = append(pool, m)
+				}
+			}
+		}
+	}
+	pool = append([]famMember(nil), pool...)
+	core.Shuffle(r, pool)
+	// listeners: each host:port gets one of its own kind while there are any left
+	free := map[string][]string{"http": {"proxyA", "redirA", "redirB"}, "https": {"proxyB", "proxyC"}, "socks5": {"socks"}}
+	for _, l := range free {
+		core.Shuffle(r, l)
+	}
+	listener := map[string]string{}
+	var members []famMember
+	var routes []reqmodel.HostPortPair
+	want := r.Range(2, 4)
+	for _, m := range pool {
+		if len(members) == want {
+			break
+		}
+		if _, ok := listener[m.hostport]; !ok {
+			l := free[m.scheme()]
+			if len(l) == 0 {
+				continue
+			}
+			listener[m.hostport], free[m.scheme()] = l[0], l[1:]
+			h, p := splitHostPortLoose(m.hostport)
+			routes = append(routes, reqmodel.HostPortPair{SrcHost: h, SrcPort: p, DstHost: "@" + l[0]})
+		}
+		members = append(members, m)
+	}
+	n := len(members)
+	targets := append([]string(nil), famTargets...)
+	core.Shuffle(r, targets)
+	// group k of target hosts is answered with member k; a last group may go direct
+	groups := make([][]string, n)
+	for i := 0; i < n; i++ {
+		groups[i] = []string{targets[i]}
+	}
+	rest := targets[n:]
+	proxyURL := func(m famMember) *reqmodel.ProxyURL { return &reqmodel.ProxyURL{Scheme: m.scheme(), Host: m.hostport} }
+	entry := func(i int) reqmodel.PacResult {
+		e := members[i].kw + " " + members[i].hostport
+		if r.Chance(20) {
+			// only the first entry of an answer counts; what follows names a sibling or nothing
+			sib := members[(i+1)%n]
+			e += core.Pick(r, []string{"; DIRECT", "; " + sib.kw + " " + sib.hostport, ";"})
+		}
+		return reqmodel.PacResult{Return: e}
+	}
+	dflt := -1 // index of the member that is the default answer
+	if r.Chance(60) {
+		dflt = r.Intn(n)
+		groups[dflt] = append(groups[dflt], rest...)
+	} else {
+		groups = append(groups, rest)
+	}
+	pathRule := -1
+	if r.Chance(50) {
+		rc.Route.Base = "custom"
+		for i := 0; i < n; i++ {
+			rc.Route.CustomTable = append(rc.Route.CustomTable, reqmodel.CustomEntry{Host: targets[i], URL: proxyURL(members[i])})
+		}
+		if dflt >= 0 {
+			rc.Route.CustomDefault = proxyURL(members[dflt])
+		}
+	} else {
+		rc.Route.Base = "pac"
+		if r.Chance(35) {
+			// the same target host reaches two members: by path for requests, by the host table for CONNECT
+			pathRule = r.Intn(n)
+			rc.Route.PacRules = append(rc.Route.PacRules, reqmodel.PacRule{Cond: reqmodel.PacCond{Op: "C", Lit: "/admin/"}, R: entry(pathRule)})
+		}
+		for i := 0; i < n; i++ {
+			if r.Chance(30) {
+				rc.Route.PacRules = append(rc.Route.PacRules, reqmodel.PacRule{Cond: reqmodel.PacCond{Op: "H", Lit: targets[i]}, R: entry(i)})
+			} else {
+				rc.Route.PacTable = append(rc.Route.PacTable, reqmodel.PacEntry{Host: targets[i], R: entry(i)})
+			}
+		}
+		if dflt >= 0 {
+			rc.Route.PacDefault = entry(dflt)
+		} else {
+			rc.Route.PacDefault = reqmodel.PacResult{Return: core.Pick(r, []string{"DIRECT", ""})}
+		}
+	}
+	if r.Chance(15) {
+		rc.Route.DirectSet = true
+		rc.Route.Direct = core.Pick(r, directRuleSets)
+	}
+	if r.Chance(25) {
+		rc.NGen = r.Range(1, 2)
+		for i := 0; i < rc.NGen; i++ {
+			rc.Route.ConnectTo = append(rc.Route.ConnectTo, core.Pick(r, generatedRules))
+		}
+	}
+	rc.Route.ConnectTo = append(rc.Route.ConnectTo, routes...)
+	rc.Route.ConnectTo = append(rc.Route.ConnectTo, routesFor(v)...)
+	for _, h := range famTargets {
+		rc.Route.ConnectTo = append(rc.Route.ConnectTo, reqmodel.HostPortPair{SrcHost: h, SrcPort: "80", DstHost: "@origin"}, reqmodel.HostPortPair{SrcHost: h, SrcPort: "443", DstHost: "@origin"})
+	}
+	rc.MITM = r.Chance(25)
+	var order []int
+	for len(order) < 10 {
+		perm := make([]int, len(groups))
+		for i := range perm {
+			perm[i] = i
+		}
+		core.Shuffle(r, perm)
+		order = append(order, perm...)
+	}
+	order = order[:r.Range(len(groups)+1, min(2*len(groups)+1, 9))]
+	for _, k := range order {
+		if len(groups[k]) == 0 {
+			continue
+		}
+		host := core.Pick(r, groups[k])
+		t := target{ID: fmt.Sprintf("c05-%d", idSeq.Add(1))}
+		switch {
+		case rc.MITM && r.Chance(55):
+			t.Kind = "mitm"
+			t.Authority = host + core.Pick(r, []string{"", "", ":443", ":8443"})
+		case !rc.MITM && r.Chance(60):
+			t.Kind = "connect"
+			t.Authority = host + ":" + core.Pick(r, []string{"443", "443", "80", "8443"})
+		default:
+			t.Kind = "plain"
+			t.Authority = host + core.Pick(r, []string{"", "", ":80", ":8080"})
+			t.Absolute = r.Chance(40)
+		}
+		if t.Kind != "connect" {
+			t.Path = core.Pick(r, urlPaths)
+			if pathRule >= 0 && r.Chance(30) {
+				t.Path = "/admin/x"
+			}
+			if r.Chance(25) {
+				q := core.Pick(r, urlQueries)
+				t.Query = &q
+			}
+			t.Reuse = r.Chance(50)
+		}
+		rc.Targets = append(rc.Targets, t)
+	}
+	return rc
+}
+
 func genCaseView(r *core.Rand, v *hostsView) *rcase {
+	if r.Chance(25) {
+		return genFamilyCase(r, v)
+	}
 	hosts := hostPool(v)
 	rc := &rcase{Kind: "routing", LocalMode: core.Pick(r, []string{"deny", "allow", "direct", "direct"})}
 	switch r.Intn(10) {
